@@ -858,13 +858,54 @@ func (ec *evalCtx) findEvent(callee string, ord int) (*Event, error) {
 		frames = append(frames, f.children...)
 	}
 	siteExists := false
+	var found []*Event
 	for _, f := range frames {
-		for k, e := range f.events {
-			_ = k
+		var ks []string
+		for k := range f.events {
+			ks = append(ks, k)
+		}
+		sort.Strings(ks)
+		for _, k := range ks {
+			e := f.events[k]
 			if e.ord == ord && v.keyMatches(e.key, callee) {
-				return e, nil
+				found = append(found, e)
 			}
 		}
+	}
+	if len(found) == 1 {
+		return found[0], nil
+	}
+	if len(found) > 1 {
+		// the same site executed in several inlined instances of a function (a deferred closure is
+		// inlined at every return): the instances lie on different paths; merge them
+		m := &Event{key: found[0].key, ord: ord, block: found[0].block}
+		var dids []Term
+		for _, e := range found {
+			dids = append(dids, e.did)
+		}
+		m.did = or(dids...)
+		pick := func(get func(e *Event) []TV) []TV {
+			base := get(found[len(found)-1])
+			out := make([]TV, len(base))
+			copy(out, base)
+			for i := len(found) - 2; i >= 0; i-- {
+				cur := get(found[i])
+				if len(cur) != len(out) {
+					continue
+				}
+				for j := range out {
+					if cur[j].T.Sort == out[j].T.Sort {
+						out[j] = TV{T: ite(found[i].did, cur[j].T, out[j].T), Ty: out[j].Ty}
+					}
+				}
+			}
+			return out
+		}
+		m.args = pick(func(e *Event) []TV { return e.args })
+		m.rets = pick(func(e *Event) []TV { return e.rets })
+		return m, nil
+	}
+	for _, f := range frames {
 		for _, si := range f.sites {
 			if si.ord == ord && v.keyMatches(si.key, callee) {
 				siteExists = true
